@@ -221,3 +221,66 @@ def _merge(pieces):
         else:
             out.append((k, v))
     return out
+
+
+def helper_calls(prog, resolver, func: FuncInfo, cls, depth: int = 2, skip=()):
+    """Helpers a function delegates to: [(callee, call node, caller, {param: argument ast})] for calls on
+    self and to module-level functions that resolve to exactly one repository function, transitively."""
+    out, seen = [], {func}
+    work = [(func, 0)]
+    while work:
+        f, d = work.pop()
+        if d >= depth:
+            continue
+        for n in ast.walk(f.node):
+            if not isinstance(n, ast.Call):
+                continue
+            try:
+                t = resolver.resolve(n, f, cls)
+            except Exception:
+                continue
+            if t is None or t.kind != "repo" or len(t.funcs) != 1 or t.by_name:
+                continue
+            g = t.funcs[0]
+            if g in seen or g.name in skip:
+                continue
+            is_self = isinstance(n.func, ast.Attribute) and dotted(n.func.value) in ("self", "cls")
+            is_modfunc = g.cls is None
+            if not (is_self or is_modfunc):
+                continue
+            seen.add(g)
+            params = list(g.params)
+            if g.cls is not None and params and is_self and not any(isinstance(dec, ast.Name) and dec.id == "staticmethod" for dec in g.node.decorator_list):
+                params = params[1:]
+            bind = {}
+            for p, a in zip(params, n.args):
+                bind[p] = a
+            for k in n.keywords:
+                if k.arg:
+                    bind[k.arg] = k.value
+            out.append((g, n, f, bind))
+            work.append((g, d + 1))
+    return out
+
+
+class _ParamSub(ast.NodeTransformer):
+    def __init__(self, bind):
+        self.bind = bind
+
+    def visit_Name(self, node):
+        if isinstance(node.ctx, ast.Load) and node.id in self.bind:
+            import copy
+
+            return copy.deepcopy(self.bind[node.id])
+        return node
+
+
+def bind_params(expr: ast.AST, bind) -> ast.AST:
+    """`expr` of a helper body with the helper's parameters replaced by the caller's arguments."""
+    import copy
+
+    from .loader import clear_norm_cache
+
+    if not bind:
+        return expr
+    return clear_norm_cache(ast.fix_missing_locations(_ParamSub(bind).visit(copy.deepcopy(expr))))
